@@ -96,6 +96,19 @@ class Spectrum:
         return self.divide(other)
 
     __rmul__ = __mul__
+
+    # a scalar or vector on the left of -, / and ** (2 - s, 1/s, 2**s)
+    def __rsub__(self, other):
+        return self.multiply(-1).add(other)
+
+    def __rtruediv__(self, other):
+        return self.power(-1).multiply(other)
+
+    def __rpow__(self, other):
+        if isinstance(other, Spectrum):
+            return other.power(self)
+        return Spectrum(self.wave, np.power(other, np.asarray(self.value, dtype=np.result_type(self.value.dtype, np.float64))),
+                        self.waveunit, self.valueunit)
     __radd__ = __add__
 
     @property
